@@ -3,7 +3,7 @@ C14 — line protocol of the index-side model (`x` ops; core only).
 
   x new <metaDur> <sid:gid:iid:end:deleted:marked:shared;…|-> <iid:igid:start:end:deleted:marked:shared;…|->
   x tick <dt> | x alter <d> | x load <sid> | x close <sid> | x offload | x rollback
-  x run <okS> <alter1|-> <okI> <alter2|-> <sid=mark.del.prune,…|-> <iid=mark.del.prune,…|->
+  x run <okS> <alter1|-> <okI> <alter2|-> <sid=mark.del.prune,…|-> <iid=mark.del.prune,…|-> <sid created mid-run|->
 every op answers `<op specific> | <state dump>`.
 -/
 import OG.C14.Index
@@ -87,10 +87,11 @@ def procILogged (oc : Nat → Outcome) : Nat → St → String → St × String
     | _, _ => (σ, acc)
 
 /-- one `handle()` with its call log; the state it returns is `run sc σ`. -/
-def runLogged (sc : Script) (σ : St) : St × String :=
-  let σa := steps σ ([.refreshS sc.okS] ++ optAlter sc.alter1 ++ [.refreshI sc.okI] ++ optAlter sc.alter2)
+def runLogged (sc : Script) (lm : Option Nat) (σ : St) : St × String :=
+  let σa := steps σ ([.refreshS sc.okS] ++ optAlter sc.alter1 ++ [.refreshI sc.okI] ++ optAlter sc.alter2 ++
+    (match lm with | some sid => [.load sid] | none => []))
   let head := s!"RS{bit sc.okS} RI{bit sc.okI}"
-  if !(sc.okS && sc.okI) then (run sc σ, head)
+  if !(sc.okS && sc.okI) then (σa, head)
   else
     let σ1 := step σa .collectS
     let head := head ++ s!" NS[{joinNat (sortNat (σ1.nilS.map (·.sid)))}] XS[{joinNat (σ1.sq.map (·.sid))}]"
@@ -127,13 +128,14 @@ def stepX (σ : Option St) (ws : List String) : Option St × String :=
     match sid.toNat? with
     | some sid => let σ := step σ (.close sid); (some σ, "ok | " ++ dump σ)
     | none => (some σ, "bad-op")
-  | some σ, ["run", okS, a1, okI, a2, os, oi] =>
+  | some σ, ["run", okS, a1, okI, a2, os, oi, lm] =>
+    let lm' : Option (Option Nat) := if lm == "-" then some none else (lm.toNat?).map some
     match σ.phase, parseBit okS, parseOptInt a1, parseBit okI, parseOptInt a2,
-          (listOf os ",").mapM parseOutcome, (listOf oi ",").mapM parseOutcome with
-    | .idle, some okS, some a1, some okI, some a2, some os, some oi =>
-      let (σ', log) := runLogged ⟨okS, a1, okI, a2, outcomeFn os, outcomeFn oi⟩ σ
+          (listOf os ",").mapM parseOutcome, (listOf oi ",").mapM parseOutcome, lm' with
+    | .idle, some okS, some a1, some okI, some a2, some os, some oi, some lm =>
+      let (σ', log) := runLogged ⟨okS, a1, okI, a2, outcomeFn os, outcomeFn oi⟩ lm σ
       (some σ', log ++ " | " ++ dump σ')
-    | _, _, _, _, _, _, _ => (some σ, "bad-op")
+    | _, _, _, _, _, _, _, _ => (some σ, "bad-op")
   | _, _ => (σ, "bad-op")
 
 end OG.C14.Ix
